@@ -69,7 +69,7 @@ def opHistory (a : Json) : Json :=
 
 /-- a history that may cross the version gate, on a fresh `Images()`:
 ops `["add", variant, arch, id, image] | ["dumps"] | ["set_version", v] | ["loads", doc]`; after every step the
-result, the header version and the cells; the history ends at a failed `loads` -/
+result, the header version, the compose section and the cells; a failed `loads` is a step like any other (`loadsInto`) -/
 def opXHistory (a : Json) : Json :=
   let ops := getArr a "ops"
   let rec go (s : ImgState) (k : Nat) : List Json → List Json
@@ -86,10 +86,9 @@ def opXHistory (a : Json) : Json :=
         else if kind == "del_variant" then .delVariant (strOf (parts.getD 1 .null))
         else .loads (toPy (parts.getD 1 .null)) (1000 * (k + 1))
       let r := hstep s hop
-      let out := Json.mkObj [("res", resJson r.2), ("version", ofPy r.1.version), ("state", cellsToJson r.1.cells)]
-      match kind, r.2 with
-      | "loads", .error _ => [out]
-      | _, _ => out :: go r.1 (k + 1) rest
+      let out := Json.mkObj [("res", resJson r.2), ("version", ofPy r.1.version), ("compose", composeToJson r.1.compose),
+        ("state", cellsToJson r.1.cells)]
+      out :: go r.1 (k + 1) rest
   Json.arr (go { compose := composeOfPy (toPy (get a "compose")) } 0 ops).toArray
 
 def opDumps (a : Json) : Json :=
